@@ -10,6 +10,7 @@ import warnings
 import numpy
 import shapefile
 import shapely
+import shapely.errors
 
 import emsarray
 from emsarray.operations import geometry
@@ -105,10 +106,17 @@ def test(inp):
                 path = os.path.join(tmp, 'g.' + fmt)
                 if fmt == 'wkt':
                     must(lambda: geometry.write_wkt(ds, path), 'write_wkt')
-                    geom = shapely.from_wkt(open(path).read())
+                    text = open(path).read()
+                    try:
+                        geom = shapely.from_wkt(text)
+                    except shapely.errors.ShapelyError as e:
+                        return f'the written file is not well-known text: {e} (starts {text[:40]!r})'
                 else:
                     must(lambda: geometry.write_wkb(ds, path), 'write_wkb')
-                    geom = shapely.from_wkb(open(path, 'rb').read())
+                    try:
+                        geom = shapely.from_wkb(open(path, 'rb').read())
+                    except shapely.errors.ShapelyError as e:
+                        return f'the written file is not well-known binary: {e}'
                 parts = list(geom.geoms)
                 if len(parts) != len(present):
                     return f'{len(parts)} polygons for {len(present)} cells with polygons'
